@@ -250,7 +250,11 @@ def run_check(prop, tier, seed):
     }
     extra = getattr(engine, "extra_coverage", None)
     if extra is not None:
-        coverage.update(extra(prop, tier, total))
+        more = extra(prop, seed, tier, total)
+        if more.pop("_mismatch", None):
+            print(f"HARNESS_ERROR property={prop} stub cross-check disagrees with the real mechanism: {json.dumps(more)[:800]}")
+            return 2
+        coverage.update(more)
     batch.write_evidence(
         prop, tier, seed, plan["level"], coverage, plan["assumptions"], wall, len(violation_lines)
     )
